@@ -147,6 +147,9 @@ type c05MX struct {
 	V6Only bool `json:"ipv6_only,omitempty"`
 	// the server does not advertise the REQUIRETLS extension
 	NoReqTLS bool `json:"no_requiretls_extension"`
+	// only the first connection to this MX is offered STARTTLS; every later one (the retry after a certificate
+	// that does not verify, later messages) reaches a server that does not offer it (someone strips it)
+	StripLater bool `json:"starttls_stripped_after_first_connection,omitempty"`
 }
 
 type c05Msg struct {
@@ -192,6 +195,9 @@ func c05Gen(t *rapid.T) c05Scenario {
 			CNAME: rapid.SampledFrom([]string{"", "", "", "cname-none", "cname-servfail", "cname-match"}).Draw(t, "cname"),
 			V6Only:   rapid.IntRange(0, 4).Draw(t, "v6only") == 0,
 			NoReqTLS: rapid.IntRange(0, 2).Draw(t, "noreqtls") == 0})
+		if mx := &sc.MXs[len(sc.MXs)-1]; mx.Kind != "plain" && rapid.IntRange(0, 4).Draw(t, "strip_later") == 0 {
+			mx.StripLater = true
+		}
 	}
 	for i, n := 0, rapid.IntRange(1, 3).Draw(t, "nmsgs"); i < n; i++ {
 		sc.Msgs = append(sc.Msgs, c05Msg{RequireTLS: rapid.IntRange(0, 3).Draw(t, "requiretls") == 0, Override: rapid.IntRange(0, 2).Draw(t, "override") == 0,
@@ -334,6 +340,10 @@ func c05Run(sc c05Scenario) (vs []ev.V) {
 	}
 	orig0 := sc.MXs[0] // the facts as generated, before the model-side adjustments below
 	servers := make([]*verifx.NextHop, len(sc.MXs))
+	stripped := make([]*verifx.NextHop, len(sc.MXs)) // the plain server later connections end up at (StripLater)
+	laterAddr := map[string]string{}
+	var dialMu sync.Mutex
+	dials := map[string]int{}
 	addrOf := map[string]string{}
 	zones := map[string]mockdns.Zone{}
 	var mxRecs []net.MX
@@ -342,6 +352,11 @@ func c05Run(sc c05Scenario) (vs []ev.V) {
 		servers[i] = c05Servers[fmt.Sprintf("%s/%s/%v", name, mx.Kind, !mx.NoReqTLS)]
 		servers[i].ResetScript()
 		addrOf[name] = servers[i].Addr
+		if mx.StripLater {
+			stripped[i] = c05Servers[fmt.Sprintf("%s/plain/%v", name, !mx.NoReqTLS)]
+			stripped[i].ResetScript()
+			laterAddr[servers[i].Addr] = stripped[i].Addr
+		}
 		mxRecs = append(mxRecs, net.MX{Host: name + ".", Pref: uint16(10 * (i + 1))})
 		zones[name+"."] = mockdns.Zone{AD: mx.AD, A: []string{"127.0.0.1"}}
 		if mx.V6Only {
@@ -520,6 +535,12 @@ func c05Run(sc c05Scenario) (vs []ev.V) {
 					break
 				}
 			}
+			dialMu.Lock()
+			dials[real]++
+			if later, ok := laterAddr[real]; ok && dials[real] > 1 {
+				real = later
+			}
+			dialMu.Unlock()
 			return (&net.Dialer{}).DialContext(ctx, "tcp", real)
 		},
 		tlsConfig: &tls.Config{RootCAs: c05Roots}, Log: log.Logger{Out: log.NopOutput{}},
@@ -544,8 +565,12 @@ func c05Run(sc c05Scenario) (vs []ev.V) {
 	}
 	results := make([]result, len(sc.Msgs))
 	before := make([]int, len(servers))
+	beforeStripped := make([]int, len(servers))
 	for i, s := range servers {
 		before[i] = len(s.Messages())
+		if stripped[i] != nil {
+			beforeStripped[i] = len(stripped[i].Messages())
+		}
 	}
 	for mi, m := range sc.Msgs {
 		hdr := textproto.Header{}
@@ -601,7 +626,11 @@ func c05Run(sc c05Scenario) (vs []ev.V) {
 	// what did the servers see?
 	delivered := 0
 	for si, s := range servers {
-		for _, got := range s.Messages()[before[si]:] {
+		seen := s.Messages()[before[si]:]
+		if stripped[si] != nil {
+			seen = append(append([]verifx.HopMsg(nil), seen...), stripped[si].Messages()[beforeStripped[si]:]...)
+		}
+		for _, got := range seen {
 			mi := -1
 			for k := range sc.Msgs {
 				if bytes.Contains(got.Data, []byte(fmt.Sprintf("MSG-%d\r\n", k))) {
@@ -652,6 +681,9 @@ func c05Run(sc c05Scenario) (vs []ev.V) {
 			mx = sc.implicitMX
 		}
 		natural, known := false, true
+		if mx.StripLater {
+			continue // what a client may accept when STARTTLS disappears between two connections is not asserted here
+		}
 		switch mx.Kind {
 		case "plain":
 			natural = false
@@ -683,8 +715,8 @@ func c05Run(sc c05Scenario) (vs []ev.V) {
 			if m.Second && i == 0 {
 				continue
 			}
-			if !(mx.AD && mx.TLSA == "servfail") {
-				allServfail = false
+			if !(mx.AD && mx.TLSA == "servfail") || mx.StripLater {
+				allServfail = false // (a connection that lost STARTTLS is an obstacle of its own)
 			}
 		}
 		// only when discovery failure is the sole obstacle: with the records absent some MX would have qualified
